@@ -1010,6 +1010,18 @@ def m_ctx_with_cancel(ex, args, guard, pos):
     return TupleV([ctx, FuncV([(True, "verif.noop", ())])]), guard
 
 
+def ctx_Err(ex, payload, args, guard, pos, t, ins):
+    return IfaceV.nil(), guard
+
+
+def ctx_Done(ex, payload, args, guard, pos, t, ins):
+    return Ptr.nil(), guard  # a context that is never cancelled: nil channel (never ready)
+
+
+def ctx_Value(ex, payload, args, guard, pos, t, ins):
+    return IfaceV.nil(), guard
+
+
 def m_ctx_background(ex, args, guard, pos):
     return IfaceV([(True, "verif.ctx", Opaque(stable_id("ctx.background")))]), guard
 
@@ -1184,8 +1196,12 @@ def install(ex):
     M["context.WithTimeout"] = m_ctx_with_cancel
     M["context.WithDeadline"] = m_ctx_with_cancel
     ex.intercepts["verif.noop"] = lambda ex_, args, guard, pos: (None, guard)
+    ex.iface_models[("verif.ctx", "Err")] = ctx_Err
+    ex.iface_models[("verif.ctx", "Done")] = ctx_Done
+    ex.iface_models[("verif.ctx", "Value")] = ctx_Value
     M["context.Background"] = m_ctx_background
     M["context.TODO"] = m_ctx_background
+    M["context.WithoutCancel"] = lambda ex_, args, guard, pos: (args[0], guard)
 
 
 def _b2i(b):
